@@ -11,8 +11,12 @@ D = {
  "C03-B": ("C03", "jwt_str_alg compares names with strcasecmp", "a header alg spelled 'NONE', 'None', 'hs256', ..."),
  "C04-A": ("C04", "jwt_checker_time_leeway(.., 0) no longer re-enables a disabled check", "leeway set to -1 and later to 0 for the same claim"),
  "C04-B": ("C04", "claim checks are skipped for unsigned tokens", "an alg none token with an expired exp / wrong iss on a keyless checker"),
+ "C04-C": ("C04", "exp/nbf compared through a helper returning now - claim (overflows for claims near INT64_MIN)", "a token with exp or nbf within 'now' of INT64_MIN: long-expired token accepted"),
+ "C04-D": ("C04", "payload parsed with JSON_ALLOW_NUL while string claims are still compared with strcmp", "an iss/sub/aud claim of the form <expected>\\u0000<anything>"),
  "C05-A": ("C05", "openssl_verify_sha_pem rejects RSA signatures whose length differs from bits/8 (rounds down)", "an RSA key whose modulus length is not a multiple of 8 bits"),
  "C05-B": ("C05", "time claims are written through a helper taking int (narrowing)", "a clock value or offset beyond 2^31"),
+ "C05-C": ("C05", "jwt_checker_verify copies the per-call error state back only when it is set (sticky checker error)", "an error on a checker, no error_clear, then a good token: reported as failed"),
+ "C05-D": ("C05", "same idea as C10-B: time claims written through a helper taking the offset as int", "an nbf / exp offset of 2^31 seconds or more"),
  "C06-A": ("C06", "base64_decode drops the range check in front of the table lookup", "a token byte above 'z' or below '+' (out-of-bounds table read)"),
  "C06-B": ("C06", "struct jwt error_msg doubled to 512 bytes while checker/builder keep 256; jwt_copy_error is a plain strcpy", "a header alg string of 241 characters or more ('Invalid ALG: [...]' overflows the checker's message buffer)"),
  "C07-A": ("C07", "same change as C06-A", "a JWK member containing a byte outside the table range"),
@@ -24,6 +28,8 @@ D = {
  "C09-B": ("C09", "_verify_sha_hmac calls sign_sha_hmac directly, bypassing __check_hmac in jwt_sign", "an HS* token verified with an oct key shorter than the hash"),
  "C10-A": ("C10", "jwt_builder_generate runs jwt_head_setup before AND after the callback", "a keyed builder whose callback downgrades to alg none (typ JWT left behind) or sets its own typ without replace"),
  "C10-B": ("C10", "time claims written through a helper taking the offset as int", "an nbf / exp offset above INT_MAX seconds"),
+ "C10-C": ("C10", "generate copies headers/claims with json_copy (shallow) AND jwt_set_int replaces an existing integer in place", "an integer builder claim replaced during generate (iat/nbf/exp by name, or by the callback): the builder's own claim changes"),
+ "C10-D": ("C10", "claim on/off logic moved into a helper taking (secs - DISABLE) as int", "a positive offset whose low 32 bits are zero or negative as int (2^31, 2^32, 100 years): success, but the claim is switched off"),
  "C11-A": ("C11", "base64_decode drops the lower half of the range check in front of the table lookup", "a byte >= 0x80 (negative char) in a segment or JWK member: out-of-bounds table read, foreign byte accepted"),
  "C11-B": ("C11", "jwt_base64uri_decode rewritten to decode in 256-character chunks; a failing later chunk is taken for padding", "a text longer than 256 characters whose first foreign byte is at offset >= 256 (partially decoded)"),
  "C12-A": ("C12", "a failed jwt_set_crypto_ops(_t) falls back to the first compiled-in provider", "an unknown provider name / id while GnuTLS is selected"),
@@ -36,14 +42,20 @@ D = {
  "C15-B": ("C15", "jwt_get_int range-checks against INT_MAX / INT_MIN", "a stored integer beyond 32 bits (exp after 2038): get INT answers TYPE"),
  "C16-A": ("C16", "jwks_item_get caches the last (item, index) and resumes from it; removals do not adjust the index", "get(i), free(j < i), get(k >= i)"),
  "C16-B": ("C16", "items are linked into the set at allocation (jwks_item_new); the json_deep_copy failure path frees the item without unlinking", "an allocation failure at json_deep_copy while loading a key: dangling node, later double free"),
+ "C16-C": ("C16", "jwks_find_bykid remembers its last hit; jwks_item_free_bad does not invalidate it", "find an errored item by kid, jwks_item_free_bad, find again: freed item dereferenced"),
+ "C16-D": ("C16", "jwks_process stages items on a local list and splices it in; the splice has no empty-list case", "a document with an empty (or non-array) keys member: a stack node is linked into the keyring"),
  "C17-A": ("C17", "verify snapshots only exp/nbf/iss/sub/aud around the callback and ignores json_object_set_new failures", "a checker with a callback, an expired token, and the allocation that copies exp failing: accepted"),
  "C17-B": ("C17", "shared setter helper decrefs the value again after json_object_set_new failed (jansson already dropped it)", "an allocation failure inside jansson's hashtable insert: double decref"),
+ "C17-C": ("C17", "_verify_sha_hmac returns -1 for 'nothing to compare with' and the caller only writes an error for a positive result", "an HS* token with a WRONG signature and the allocation inside jwt_base64uri_encode failing: accepted"),
+ "C17-D": ("C17", "jwks_process frees the set and returns NULL when jwk_process_one fails on an allocation", "loading into an existing, caller-owned keyring with an allocation failure: the caller's keyring is freed under it"),
  "C18-A": ("C18", "OpenSSL HMAC result taken from libcrypto's static buffer (md = NULL)", "two threads computing HS* MACs at the same time"),
  "C18-B": ("C18", "GnuTLS verify with a private JWK memoises the derived public key in unsynchronised process-wide state", "two threads verifying with two different private JWKs under GnuTLS"),
  "C19-A": ("C19", "only exp/nbf/iss/sub/aud are saved around the callback and put back with json_object_update", "a token lacking iss/sub/aud, a checker requiring it, a callback that adds it"),
  "C19-B": ("C19", "jwt_*_setkey refuses use=enc keys, but the post-callback __setkey_check does not", "a use=enc key selected inside a callback"),
  "C20-A": ("C20", "jwt-verify reads stdin with getline() and chops the last character unconditionally", "a last token without trailing newline"),
  "C20-B": ("C20", "set_one_bn rejects members with a leading zero octet", "an EC private key whose fixed-width d starts with 0x00 (key2jwk output the library then refuses)"),
+ "C20-C": ("C20", "jwt-verify counts a stdin line without newline as 'token too long' (forgets that the last line may end at EOF)", "a last stdin token without trailing newline: never verified, counted as failed"),
+ "C20-D": ("C20", "same change as C20-B (chosen independently): set_one_bn rejects members with a leading zero octet", "an EC private key whose fixed-width d starts with 0x00"),
 }
 NOTES = {
  "C02-A": "The C02 check is silent by design: with no pinned algorithm (config alg none) the pinning clause is not involved; the change is caught under C01 and C03.",
